@@ -244,18 +244,47 @@ def one_trace(tid, nrep, ngen, loginit, lrep0, via_initop, rng, script=None):
     except Exception as e:  # noqa
         exc = "%s: %s" % (type(e).__name__, e)
     # final observation
-    fin = [prog.start_genome, prog.start_geno, prog.start_pheno, prog.start_bval, prog.start_gmod]
-    if all(isinstance(c, dict) for c in fin):
-        ids, mems, fps = [], [], []
-        for c in fin:
-            a, b, f = rec.reg.cont(c)
-            ids.append(a); mems.append(b); fps.append(f)
-        rec.ev.append({"call": "final", "rep": int(lb.rep), "t": int(prog.t_cur), "tmax": int(prog.t_max), "mcfg": 0,
-                       "recv": ids, "mem": mems, "fp": fps, "ret": ids, "retmem": mems, "retfp": fps,
-                       "retmcfg": 0, "misc": 0, "retmisc": 0, "sfp": fps})
+    def observe_final():
+        fin = [prog.start_genome, prog.start_geno, prog.start_pheno, prog.start_bval, prog.start_gmod]
+        if all(isinstance(c, dict) for c in fin):
+            ids, mems, fps = [], [], []
+            for c in fin:
+                a, b, f = rec.reg.cont(c)
+                ids.append(a); mems.append(b); fps.append(f)
+            rec.ev.append({"call": "final", "rep": int(lb.rep), "t": int(prog.t_cur), "tmax": int(prog.t_max), "mcfg": 0,
+                           "recv": ids, "mem": mems, "fp": fps, "ret": ids, "retmem": mems, "retfp": fps,
+                           "retmcfg": 0, "misc": 0, "retmisc": 0, "sfp": fps, "k": 0})
+    observe_final()
+    more = []
+    if exc is None and script is None and rng.random() < 0.45:
+        # the other public entry points, called directly on the programme after evolve() has returned: advance(k) continues from the
+        # time the programme stands at; reset() puts fresh copies of the start in place and the time back to 0
+        try:
+            for _ in range(rng.randrange(1, 3)):
+                if rng.random() < 0.35 and int(prog.t_cur) > 0:
+                    prog.reset()
+                    work = [getattr(prog, s_) for s_ in SLOTS]
+                    if all(isinstance(c, dict) for c in work):
+                        ids, mems, fps = [], [], []
+                        for c in work:
+                            a, b, f = rec.reg.cont(c)
+                            ids.append(a); mems.append(b); fps.append(f)
+                        rec.ev.append({"call": "reset", "rep": int(lb.rep), "t": int(prog.t_cur), "tmax": int(prog.t_max), "mcfg": 0,
+                                       "recv": ids, "mem": mems, "fp": fps, "ret": ids, "retmem": mems, "retfp": fps,
+                                       "retmcfg": 0, "misc": 0, "retmisc": 0, "sfp": rec.start_fp(), "k": 0})
+                        more.append("reset"); observe_final()
+                k = rng.randrange(1, 3)
+                z5 = [0] * 5
+                rec.ev.append({"call": "advance", "rep": int(lb.rep), "t": int(prog.t_cur), "tmax": int(prog.t_max), "mcfg": 0,
+                               "recv": z5, "mem": [[]] * 5, "fp": z5, "ret": z5, "retmem": [[]] * 5, "retfp": z5,
+                               "retmcfg": 0, "misc": 0, "retmisc": 0, "sfp": rec.start_fp(), "k": k})
+                prog.advance(k, lb)
+                more.append("advance(%d)" % k); observe_final()
+        except Exception as e:  # noqa
+            exc = "direct %s: %s: %s" % (more[-1] if more else "call", type(e).__name__, e)
     return {"tid": tid, "nrep": nrep, "ngen": ngen, "loginit": bool(loginit), "lrep0": lrep0, "tmax": tmax,
             "initfp": sfp, "startids": sids, "startmem": smem, "ev": rec.ev, "exc": exc,
-            "via_initop": via_initop}
+            "via_initop": via_initop, "more": more}
 
 
 def run(ctx):
